@@ -89,13 +89,13 @@ impl<const L: usize> EnvDyn for Env<L> {
         }
     }
     fn step(&mut self, mut rng: &mut dyn RngCore) {
-        Env::step(self, &mut rng)
+        Env::step(self, &mut rng);
     }
     fn enable(&mut self) {
-        self.enable_trading()
+        self.enable_trading();
     }
     fn disable(&mut self) {
-        self.disable_trading()
+        self.disable_trading();
     }
     fn proj(&self) -> Value {
         let b = self.get_orderbook();
@@ -151,13 +151,13 @@ impl<const A: usize, const L: usize> EnvDyn for MarketEnv<A, L> {
         }
     }
     fn step(&mut self, mut rng: &mut dyn RngCore) {
-        MarketEnv::step(self, &mut rng)
+        MarketEnv::step(self, &mut rng);
     }
     fn enable(&mut self) {
-        self.enable_trading()
+        self.enable_trading();
     }
     fn disable(&mut self) {
-        self.disable_trading()
+        self.disable_trading();
     }
     fn proj(&self) -> Value {
         let m = self.get_market();
